@@ -467,7 +467,9 @@ func (fc *funcContext) ResolveGoto(from, to *gotoLabelDesc, index int) {
 func (fc *funcContext) FindLabel(block *codeBlock, gotoLabel *gotoLabelDesc, i int) bool {
 	target := block.GetLabel(gotoLabel.Name)
 	if target != nil {
-		if gotoLabel.NumActiveLocalVars > target.NumActiveLocalVars && block.RefUpvalue {
+		if gotoLabel.NumActiveLocalVars > target.NumActiveLocalVars {
+			// the block is still being compiled: a closure further down may capture one of the locals this
+			// jump leaves (block.RefUpvalue is not final yet), so the jump always closes them
 			fc.Code.SetOpCode(gotoLabel.Pc-1, OP_CLOSE)
 			fc.Code.SetA(gotoLabel.Pc-1, target.NumActiveLocalVars)
 		}
